@@ -176,6 +176,7 @@ PROPS = {
         batches=[
             B("w_expr.cpp", "expr", quick=14, thorough=240, params="faults=1", oracles=["c01."] + RT_LIVE),
             B("w_expr.cpp", "expr", quick=8, thorough=120, params="faults=0", oracles=["c01."] + RT_LIVE),
+            B("w_expr.cpp", "expr", quick=6, thorough=90, params="faults=1,more=1,wany=1", oracles=["c01."] + RT_LIVE),
         ],
         level_text=("Seeded sender-interpreter runs: a random expression tree (depth<=4, <=12 nodes, <=8 scripted leaves) over the real library adaptors, each node re-erased through a harness any_snd so that every edge is a tap; leaves complete inline or later on two actor threads with value/error/done and react to stop or ignore it; an external stop request is placed before start, after k yields or when a chosen leaf has started; faults: throwing callables, a throwing k-th Val copy, spurious weak-CAS failures and wake-ups; the root op state is destroyed inside the root receiver's completion in most runs. C01 oracles: at every tap and at the root at most one signal, none before start(), none without start, none after the root completed; every started node and leaf completes (lost completion = deadlock or end-of-run census)."),
         level_note=("Trusted: usim stubs, harness erasure (any_snd hides statically selected paths: blocking specialisations etc.). Adaptors outside the interpreter's list are covered by the direct workloads (C06-C09, C13-C19) for their own exactly-once oracles."),
@@ -189,6 +190,7 @@ PROPS = {
             B("w_expr.cpp", "expr", quick=8, thorough=120, params="faults=0", oracles=["c02."] + RT_MEM + RT_LIB),
             B("w_expr.cpp", "expr", cfg="S17r", quick=8, thorough=120, params="faults=1", oracles=["c02."] + RT_MEM + RT_LIB),
             B("w_expr.cpp", "expr", quick=8, thorough=120, params="faults=1,alloc=1", oracles=["c02.", "c04.live-registration"] + RT_MEM + RT_LIB),
+            B("w_expr.cpp", "expr", quick=6, thorough=90, params="faults=1,alloc=1,more=1,wany=1", oracles=["c02.", "c04.live-registration", "c12.allocator-pairing"] + RT_MEM + RT_LIB),
         ],
         level_text=("Seeded sender-interpreter runs: a random expression tree (depth<=4, <=12 nodes, <=8 scripted leaves) over the real library adaptors, each node re-erased through a harness any_snd so that every edge is a tap; leaves complete inline or later on two actor threads with value/error/done and react to stop or ignore it; an external stop request is placed before start, after k yields or when a chosen leaf has started; faults: throwing callables, a throwing k-th Val copy, spurious weak-CAS failures and wake-ups; the root op state is destroyed inside the root receiver's completion in most runs. C02 oracles: tracked Val objects (construct-on-live, double destroy, use after destroy, leak), every op state of every node destroyed exactly once and never while started-and-uncompleted, arena leak check, shadow memory on every library access after the root op was freed inside its completion. The alloc=1 batch lets operator new fail (seeded, on the connecting thread only) anywhere inside the top-level connect() - the heap operation of any_sender_of and every nested connect - and requires the exception to propagate out of connect() with every partially built operation state destroyed once, no stop-callback registration left behind and no leak."),
         level_note=('Trusted: as C01. Allocation failures are injected during connect only: start() and the completion paths are noexcept, an allocation failure there terminates by design (spawn/allocate failures are in the scope/future checks).'),
@@ -200,6 +202,7 @@ PROPS = {
         batches=[
             B("w_expr.cpp", "expr", quick=14, thorough=240, params="faults=1", oracles=["c04."] + RT_LIVE),
             B("w_expr.cpp", "expr", quick=8, thorough=120, params="faults=0", oracles=["c04."] + RT_LIVE),
+            B("w_expr.cpp", "expr", quick=6, thorough=90, params="faults=1,more=1,wany=1", oracles=["c04."] + RT_LIVE),
         ],
         level_text=("Seeded sender-interpreter runs: a random expression tree (depth<=4, <=12 nodes, <=8 scripted leaves) over the real library adaptors, each node re-erased through a harness any_snd so that every edge is a tap; leaves complete inline or later on two actor threads with value/error/done and react to stop or ignore it; an external stop request is placed before start, after k yields or when a chosen leaf has started; faults: throwing callables, a throwing k-th Val copy, spurious weak-CAS failures and wake-ups; the root op state is destroyed inside the root receiver's completion in most runs. C04 oracles: a leaf that completes after the external request_stop() returned (and is not under unstoppable) sees stop_requested()==true on the token it was given; leaves started after it start already-stopped; losers of when_all / stop_when see the internal stop; with the counting harness stop source at the root no registration is live when the root receiver is entered and the source is never touched afterwards."),
         level_note=('Trusted: as C01. Only when_all, stop_when and let_value_with_stop_source interpose stop sources in this workload; take_until/futures/scopes are in their own checks.'),
@@ -213,9 +216,10 @@ PROPS = {
             B("w_expr.cpp", "expr", quick=8, thorough=120, params="faults=0", oracles=["c05."]),
             B("w_expr.cpp", "expr", quick=8, thorough=120, params="faults=0,wany=1", oracles=["c05.", "c01.", "c02.", "c04."] + RT_LIVE),
             B("w_expr.cpp", "expr", quick=6, thorough=90, params="faults=1,wany=1", oracles=["c05.", "c01.", "c02.", "c04."] + RT_LIVE),
+            B("w_expr.cpp", "expr", quick=6, thorough=90, params="faults=1,more=1", oracles=["c05.", "c01.", "c02.", "c04."] + RT_LIVE),
         ],
         level_text=("Seeded sender-interpreter runs: a random expression tree (depth<=4, <=12 nodes, <=8 scripted leaves) over the real library adaptors, each node re-erased through a harness any_snd so that every edge is a tap; leaves complete inline or later on two actor threads with value/error/done and react to stop or ignore it; an external stop request is placed before start, after k yields or when a chosen leaf has started; faults: throwing callables, a throwing k-th Val copy, spurious weak-CAS failures and wake-ups; the root op state is destroyed inside the root receiver's completion in most runs. The wany=1 batches add when_any (2-3 children) to the node set: the result must be that of the first child to complete - value, error or done - where 'first' is decided by the tap order (overlapping completions: any of them), done is accepted when a stop request could be visible; its losers must see the stop request (C04 oracle). C05 oracles: a local reference model evaluated at every tap instance from the *observed* child outcomes: then/upon_*/let_* fire exactly on their channel and forward the others, throwing callables become set_error(that exception), sequence/let/finally start the next step only after the previous completed and short-circuit, when_all yields all values or the first error/done (overlapping completions: either), stop_when the source's result, done_as_optional/materialize round trips, via/on forward (done allowed only when a stop could be visible); callable invocation counts equal matching child completions."),
-        level_note=('Trusted: as C01; the model encodes doc/api_reference.md plus the precedence rules read from the code (Appendix C of DESIGN.md). repeat_effect_until, into_variant, variant_sender and sync_wait are not in the interpreter (into_variant is in the C11 trait matrix).'),
+        level_note=('Trusted: as C01; the model encodes doc/api_reference.md plus the precedence rules read from the code (Appendix C of DESIGN.md). repeat_effect_until and sync_wait are not in the interpreter; the more=1 batches add defer, let_value_with, let_value_with_stop_token, allocate, into_variant, variant_sender and with_allocator as (transparent) nodes.'),
         real=["just/just_error/just_done, then, upon_error, upon_done, let_value, let_error, let_done, finally, sequence, when_all (2-3), stop_when, unstoppable, via, on, with_query_value, materialize+dematerialize, done_as_optional, let_value_with_stop_source", "single_thread_context/manual_event_loop, inline_scheduler", "inplace_stop_source, inplace_stop_token_adapter, fused_stop_source"],
         stub=["harness leaves, taps and erased any_snd plumbing (kit/expr.hpp)", "kit::sim_stop_source", "pthread layer, heap (usim)"],
     ),
@@ -224,9 +228,10 @@ PROPS = {
         batches=[
             B("w_expr.cpp", "expr", quick=8, thorough=90, params="faults=1", oracles=["c12.", "c04.started-after-stop", "c04.child-not-stopped", "c04.loser-not-stopped"]),
             B("w_expr.cpp", "expr", quick=4, thorough=45, params="faults=0", oracles=["c12.", "c04.started-after-stop", "c04.child-not-stopped", "c04.loser-not-stopped"]),
+            B("w_expr.cpp", "expr", quick=6, thorough=90, params="faults=1,more=1,alloc=1", oracles=["c12.", "c04.started-after-stop", "c04.child-not-stopped", "c04.loser-not-stopped"]),
         ],
         level_text=("Seeded sender-interpreter runs: a random expression tree (depth<=4, <=12 nodes, <=8 scripted leaves) over the real library adaptors, each node re-erased through a harness any_snd so that every edge is a tap; leaves complete inline or later on two actor threads with value/error/done and react to stop or ignore it; an external stop request is placed before start, after k yields or when a chosen leaf has started; faults: throwing callables, a throwing k-th Val copy, spurious weak-CAS failures and wake-ups; the root op state is destroyed inside the root receiver's completion in most runs. C12 oracle: every started leaf records get_scheduler / get_allocator / a custom query CPO as seen through the receiver it was given; they must equal the root receiver's answers modified only by on (scheduler) and with_query_value (custom CPO) on the path; get_stop_token chaining is decided by C04's oracles on the same runs."),
-        level_note=('Honest scope: the forwarding clause is a function of the program only; the simulator contributes the generated programs. allocate()/spawn allocator pairing is not yet covered.'),
+        level_note=('Honest scope: the forwarding clause is a function of the program only; the simulator contributes the generated programs. allocate()/with_allocator pairing is covered by the more=1 batch (every allocation made through an allocator obtained from a receiver goes back to that allocator, also when a nested connect throws or an allocation fails); spawn's allocator argument is not.'),
         real=["just/just_error/just_done, then, upon_error, upon_done, let_value, let_error, let_done, finally, sequence, when_all (2-3), stop_when, unstoppable, via, on, with_query_value, materialize+dematerialize, done_as_optional, let_value_with_stop_source", "single_thread_context/manual_event_loop, inline_scheduler", "inplace_stop_source, inplace_stop_token_adapter, fused_stop_source"],
         stub=["harness leaves, taps and erased any_snd plumbing (kit/expr.hpp)", "kit::sim_stop_source", "pthread layer, heap (usim)"],
     ),
